@@ -118,6 +118,10 @@ class FakeSocket:
             self.w.ev("tbad", sock=self.id, what="recv after close")
             self._raise(OSError(errno.EBADF, "Bad file descriptor"))
         self._due()
+        if self.shut:
+            # after shutdown(SHUT_RDWR) a read returns end of stream at once
+            self.w.ev("teof", sock=self.id, req=min(int(n), 2000000000))
+            return b""
         if not self.inbuf and not self.eof and not self.reset and self.deliveries:
             # wait (virtually) for the next scheduled delivery, bounded by the socket timeout
             nxt = min(d[0] for d in self.deliveries)
